@@ -974,6 +974,21 @@ def directed_scenarios():
     for cache in ["-", "600", "10"]:
         for hsel, hmod in [("r", 0), ("s", 1)]:
             out.append(make_line(R, ops, "plain", F, cache, hsel, hmod, 1000, ep))
+    # HTTP/2 header path: alice's digest computed for GET, sent with every placement of :protocol
+    # relative to :method, for POST / HEAD / GET / CONNECT (only the extended CONNECT may use it)
+    auth = dh(b"alice", b"R2", b"wonder", b"GET", b"/dig/x", n0)
+    h2ops = []
+    for meth in [b"POST", b"HEAD", b"GET", b"CONNECT", b"PUT"]:
+        base = [(b":method", meth), (b":scheme", b"https"), (b":path", b"/dig/x"), (b":authority", b"example.org")]
+        for pos in [None, 0, 1, 4]:
+            fl = list(base)
+            if pos is not None:
+                fl.insert(pos, (b":protocol", b"websocket"))
+            fl.append((b"authorization", auth))
+            for idmode in (0, 1):
+                h2ops.append("h,%d,%s" % (idmode, ";".join(hx(a) + ":" + hx(b) for a, b in fl)))
+    out.append(make_line(R, h2ops, "plain", F, "-", "r", 0, 1000, ep))
+    out.append(make_line(R, h2ops, "plain", F, "600", "r", 0, 1000, ep))
     return out
 
 
